@@ -399,6 +399,39 @@ func c08AppendCell(b array.Builder, dt arrow.DataType, toks []string) ([]string,
 		}
 		bb.Append(v)
 	case *array.BinaryDictionaryBuilder:
+		if strings.HasPrefix(tok, "e:") {
+			// e:<index>:<hex>,<hex>,… : the peer ships a whole dictionary (distinct entries) and
+			// this row selects entry <index>; the unused entries are inserted first, in order
+			parts := strings.SplitN(tok[2:], ":", 2)
+			if len(parts) != 2 {
+				return nil, bad
+			}
+			idx, err := strconv.Atoi(parts[0])
+			hs := strings.Split(parts[1], ",")
+			if err != nil || idx < 0 || idx >= len(hs) {
+				return nil, bad
+			}
+			sb := array.NewStringBuilder(memory.DefaultAllocator)
+			defer sb.Release()
+			entries := make([]string, len(hs))
+			for i, h := range hs {
+				e, err := hex.DecodeString(h)
+				if err != nil {
+					return nil, bad
+				}
+				entries[i] = string(e)
+				sb.Append(entries[i])
+			}
+			dict := sb.NewStringArray()
+			defer dict.Release()
+			if err := bb.InsertStringDictValues(dict); err != nil {
+				return nil, err
+			}
+			if err := bb.AppendString(entries[idx]); err != nil {
+				return nil, err
+			}
+			return toks[1:], nil
+		}
 		v, ok := hexTok("s:")
 		if !ok {
 			return nil, bad
